@@ -108,11 +108,68 @@ fn abbr(name: &str) -> String {
 fn pair() -> zbus::Result<(Connection, Connection)> {
     let (a, b) = UnixStream::pair().map_err(|e| zbus::Error::InputOutput(std::sync::Arc::new(e)))?;
     let guid = Guid::generate();
-    block_on(async {
+    let (server, client) = block_on(async {
         futures_util::try_join!(
-            Builder::unix_stream(a).server(guid)?.p2p().build(),
-            Builder::unix_stream(b).p2p().build(),
+            Builder::unix_stream(a).server(guid)?.p2p().internal_executor(false).build(),
+            Builder::unix_stream(b).p2p().internal_executor(false).build(),
         )
+    })?;
+    // `object_server()` spawns the dispatch task; a call that arrives before that task has
+    // subscribed is silently dropped, so ping (with a local timeout) until one is answered.
+    let _ = server.object_server();
+    // let the freshly spawned dispatch task run up to its subscription
+    drive(&server, &client, async {
+        for _ in 0..64 {
+            let mut yielded = false;
+            futures_util::future::poll_fn(|cx| {
+                if yielded {
+                    std::task::Poll::Ready(())
+                } else {
+                    yielded = true;
+                    cx.waker().wake_by_ref();
+                    std::task::Poll::Pending
+                }
+            })
+            .await;
+        }
+    });
+    let ready = drive(&server, &client, async {
+        for _ in 0..2000 {
+            let call = client.call_method(None::<()>, "/", Some("org.freedesktop.DBus.Peer"), "Ping", &());
+            let timer = async_io::Timer::after(std::time::Duration::from_millis(5));
+            futures_util::pin_mut!(call);
+            if let futures_util::future::Either::Left((Ok(_), _)) = futures_util::future::select(call, timer).await {
+                return true;
+            }
+        }
+        false
+    });
+    if ready {
+        Ok((server, client))
+    } else {
+        Err(zbus::Error::Failure("object server did not start".into()))
+    }
+}
+
+/// Run `f` to completion on this thread while ticking the executors of both connections (they are
+/// built with `internal_executor(false)`: no helper threads, one deterministic thread per process).
+fn drive<F: std::future::Future>(server: &Connection, client: &Connection, f: F) -> F::Output {
+    block_on(async {
+        let ticker = async {
+            loop {
+                let a = server.executor().tick();
+                let b = client.executor().tick();
+                futures_util::pin_mut!(a);
+                futures_util::pin_mut!(b);
+                futures_util::future::select(a, b).await;
+            }
+        };
+        futures_util::pin_mut!(f);
+        futures_util::pin_mut!(ticker);
+        match futures_util::future::select(f, ticker).await {
+            futures_util::future::Either::Left((out, _)) => out,
+            futures_util::future::Either::Right((never, _)) => never,
+        }
     })
 }
 
@@ -126,10 +183,10 @@ fn res_tok(r: std::thread::Result<zbus::Result<bool>>) -> &'static str {
     }
 }
 
-fn do_op(server: &Connection, op: &Op, id: u32) -> &'static str {
+fn do_op(server: &Connection, client: &Connection, op: &Op, id: u32) -> &'static str {
     let os = server.object_server();
     let r = catch_unwind(AssertUnwindSafe(|| {
-        block_on(async {
+        drive(server, client, async {
             match op {
                 Op::At(p, 1) => os.at(p.as_str(), I1 { id }).await,
                 Op::At(p, 2) => os.at(p.as_str(), I2 { id }).await,
@@ -176,7 +233,7 @@ fn has_iface(n: &zbus_xml::Node<'_>, k: usize) -> bool {
 
 fn observe24(server: &Connection, client: &Connection) -> String {
     let os = server.object_server();
-    block_on(async {
+    drive(server, client, async {
         let mut l = Vec::new();
         let mut c = Vec::new();
         let mut x1 = String::new();
@@ -263,7 +320,7 @@ fn run24(ops: &[Op]) -> String {
     };
     let mut out = vec![format!("-|{}", observe24(&server, &client))];
     for (i, op) in ops.iter().enumerate() {
-        let r = do_op(&server, op, (i + 1) as u32);
+        let r = do_op(&server, &client, op, (i + 1) as u32);
         out.push(format!("{}|{}", r, observe24(&server, &client)));
     }
     out.join(";")
@@ -420,8 +477,8 @@ fn run25(ops: &[Op]) -> String {
     let mut views: BTreeMap<String, View> = BTreeMap::new();
     let mut out = Vec::new();
     for i in 0..=ops.len() {
-        let r = if i == 0 { "-" } else { do_op(&server, &ops[i - 1], i as u32) };
-        let step = block_on(async {
+        let r = if i == 0 { "-" } else { do_op(&server, &client, &ops[i - 1], i as u32) };
+        let step = drive(&server, &client, async {
             let sigs = drain(&client, &mut stream).await;
             for s in &sigs {
                 apply(&mut views, s);
